@@ -30,9 +30,10 @@ VARIABLES l, bad, nbad, ntr,
           seen,       \* key -> values the key had in the current commit window
           roots,      \* set of <<content, root id>> observed (history independence)
           dev,        \* deviation flags raised so far in this trace
+          rb,         \* the last durable state was established by a rollback (no commit since)
           emptyId, mode
 
-tvars == <<kv, dur, ck, st, hist, last, l, bad, nbad, ntr, store, needs, durRoot, ckRoot, written, batch, dirty, seen, roots, dev, emptyId, mode>>
+tvars == <<kv, dur, ck, st, hist, last, l, bad, nbad, ntr, store, needs, durRoot, ckRoot, written, batch, dirty, seen, roots, dev, rb, emptyId, mode>>
 
 MaxBad == 40
 \* deviations are kept per class (operation, failed checks, deviation flags): a flood of one class never hides another
@@ -72,7 +73,7 @@ DevOfWrite(k, v) ==
   \cup (IF v # "" /\ v \in SeenOf(k) /\ CurVal(k) # v THEN {"RecreateIdentical"} ELSE {})
 
 Base == [kv |-> kv, dur |-> dur, ck |-> ck, store |-> store, needs |-> needs, durRoot |-> durRoot, ckRoot |-> ckRoot,
-         written |-> written, batch |-> batch, dirty |-> dirty, seen |-> seen, roots |-> roots, dev |-> dev, mode |-> mode,
+         written |-> written, batch |-> batch, dirty |-> dirty, seen |-> seen, roots |-> roots, dev |-> dev, rb |-> rb, mode |-> mode,
          emptyId |-> emptyId, f |-> {}]
 
 RootFlags(m, root) ==
@@ -82,7 +83,7 @@ Step(e) ==
   CASE e.op = "reset" ->
          [Base EXCEPT !.kv = EmptyKV, !.dur = EmptyKV, !.ck = EmptyKV, !.store = {}, !.needs = EmptyFn, !.durRoot = e.empty,
                       !.ckRoot = e.empty, !.written = {}, !.batch = {}, !.dirty = FALSE, !.seen = EmptyFn, !.roots = {},
-                      !.dev = {}, !.mode = "idle", !.emptyId = e.empty]
+                      !.dev = {}, !.rb = FALSE, !.mode = "idle", !.emptyId = e.empty]
     [] e.op \in {"update", "updel", "delete"} ->
          LET r == IF e.op = "update" THEN UpdateResp(kv, e.k, e.v, e.w) ELSE DeleteResp(kv, e.k)
              v == IF e.op = "update" THEN e.v ELSE ""
@@ -98,9 +99,11 @@ Step(e) ==
          IN  [Base EXCEPT !.store = st2, !.needs = g2, !.batch = batch \cup (ToSet(e.puts) \ store),   \* ids this write added to storage
                           !.f = Flag(e.keysOK, "storekeys")
                                 \* every state is a crash point: the last durably committed root stays resolvable
-                                \cup Flag(mode = "rollback" \/ Resolvable(g2, durRoot, st2), "durable")]
+                                \cup Flag(mode = "rollback" \/ Resolvable(g2, durRoot, st2), "durable")
+                                \* ... which after a rollback is the checkpoint (C13: also after later DeleteNodes passes)
+                                \cup Flag(~rb \/ mode = "rollback" \/ Resolvable(g2, durRoot, st2), "rollbackdurable")]
     [] e.op = "committed" ->
-         [Base EXCEPT !.dur = kv, !.durRoot = e.root, !.dirty = FALSE, !.mode = "idle",
+         [Base EXCEPT !.dur = kv, !.durRoot = e.root, !.dirty = FALSE, !.mode = "idle", !.rb = FALSE,
                       !.written = written \cup batch,
                       !.seen = [k \in DOMAIN kv |-> {kv[k].v}],
                       !.roots = roots \cup {<<kv, e.root>>},
@@ -108,8 +111,9 @@ Step(e) ==
                             \cup Flag(Resolvable(needs, e.root, store), "commitincomplete")
                             \cup RootFlags(kv, e.root)]
     [] e.op = "reopen" ->
-         [Base EXCEPT !.f = Flag(e.ok /\ e.rootOK /\ OwnersOK(dur, e.total, e.owners),
-                                 IF e.after = "rollback" THEN "rollbackreopen" ELSE "reopen")]
+         LET good == e.ok /\ e.rootOK /\ OwnersOK(dur, e.total, e.owners) IN
+         [Base EXCEPT !.f = Flag(good, IF e.after = "rollback" THEN "rollbackreopen" ELSE "reopen")
+                            \cup Flag(good \/ ~rb, "rollbackreopen")]
     [] e.op = "gcbegin" -> [Base EXCEPT !.mode = "gc"]
     [] e.op = "gcend" -> [Base EXCEPT !.mode = "idle", !.f = Flag(e.res = "ok", "res")]
     [] e.op = "reload" -> [Base EXCEPT !.kv = dur, !.dirty = FALSE, !.f = Flag(e.weight = Total(dur), "weight")]
@@ -127,7 +131,7 @@ Step(e) ==
                       !.f = Flag(e.res = "ok", "res") \cup Flag(e.weight = Total(kv), "weight")]
     [] e.op = "rollbackbegin" -> [Base EXCEPT !.mode = "rollback"]
     [] e.op = "rolledback" ->
-         [Base EXCEPT !.kv = ck, !.dur = ck, !.durRoot = ckRoot, !.dirty = FALSE, !.mode = "idle",
+         [Base EXCEPT !.kv = ck, !.dur = ck, !.durRoot = ckRoot, !.dirty = FALSE, !.mode = "idle", !.rb = TRUE,
                       !.seen = [k \in DOMAIN ck |-> {ck[k].v}],
                       !.f = Flag(e.res = "ok", "res")
                             \cup Flag(e.root = ckRoot, "rollbackroot") \cup Flag(e.weight = Total(ck), "rollbackweight")
@@ -142,7 +146,7 @@ TraceInit ==
   /\ hist = <<>> /\ last = "init"
   /\ l = 1 /\ bad = {} /\ nbad = 0 /\ ntr = 0
   /\ store = {} /\ needs = EmptyFn /\ durRoot = 0 /\ ckRoot = 0 /\ written = {} /\ batch = {} /\ dirty = FALSE
-  /\ seen = EmptyFn /\ roots = {} /\ dev = {} /\ emptyId = 0 /\ mode = "idle"
+  /\ seen = EmptyFn /\ roots = {} /\ dev = {} /\ rb = FALSE /\ emptyId = 0 /\ mode = "idle"
 
 TraceNext ==
   /\ l <= Len(Trace)
@@ -151,7 +155,7 @@ TraceNext ==
          f == r.f
      IN  /\ kv' = r.kv /\ dur' = r.dur /\ ck' = r.ck /\ store' = r.store /\ needs' = r.needs /\ durRoot' = r.durRoot
          /\ ckRoot' = r.ckRoot /\ written' = r.written /\ batch' = r.batch /\ dirty' = r.dirty /\ seen' = r.seen
-         /\ roots' = r.roots /\ dev' = r.dev /\ mode' = r.mode /\ emptyId' = r.emptyId
+         /\ roots' = r.roots /\ dev' = r.dev /\ rb' = r.rb /\ mode' = r.mode /\ emptyId' = r.emptyId
          /\ UNCHANGED <<st, hist, last>>
          /\ l' = l + 1
          /\ ntr' = IF e.op = "reset" THEN ntr + 1 ELSE ntr
